@@ -25,4 +25,19 @@ func NewTableRow
   ensures WF()
   ensures result != nil && fresh(result) && isoNew(asnode(result)) && sameslice(result.Alignments, alignments)
   modifies nothing
+// footnote nodes (C16)
+func NewFootnoteBacklink
+  uses nodeModel
+  requires WF()
+  postupdates klen(p) = (p == asnode(result) ? 0 : klen(p))
+  ensures WF()
+  ensures result != nil && fresh(result) && isoNew(asnode(result)) && result.Index == index && result.RefCount == 0 && result.RefIndex == 0
+  modifies nothing
+func NewFootnoteLink
+  uses nodeModel
+  requires WF()
+  postupdates klen(p) = (p == asnode(result) ? 0 : klen(p))
+  ensures WF()
+  ensures result != nil && fresh(result) && isoNew(asnode(result)) && result.Index == index && result.RefCount == 0 && result.RefIndex == 0
+  modifies nothing
 @*/
